@@ -112,6 +112,20 @@ Theorem C13_inversion_D_and_F_are_gram_products :
     = @F_spec ROps (@inv_P ROps objs) (inv_matrix_spec pi_ G uv objs) noise (@inv_noreg ROps objs) value.
 Proof. exact T_inversion. Qed.
 
+(* 6b. sibling entry points of the same operator.  mapped_reconstructed_data_dict: for every linear object, the operator
+   applied to the columns of ITS mapping matrix, times ITS slice of the reconstruction (any reconstruction vector: the
+   solver is not part of this property).  SimulatorInterferometer with the noise switched off: the simulated data are
+   the transform of the image over the unmasked pixel centres of the image's own mask. *)
+Theorem C13_reconstructed_visibilities_per_object :
+  forall pi_ (G : @geom ROps) uv preload (objs : list (nat * list (list R) * bool)) (s : list R),
+  rectn (Wn (g_mask G)) (g_mask G) = true -> @scales_ok ROps (g_sy G) (g_sx G) = true ->
+  @inv_recon_dict ROps pi_ G uv preload objs s = @recon_dict_spec ROps (@centres_spec ROps pi_ G) uv objs s.
+Proof. exact T_recon_dict. Qed.
+Theorem C13_simulated_data_is_transform : forall pi_ (G : @geom ROps) uv (img : list R),
+  rectn (Wn (g_mask G)) (g_mask G) = true -> @scales_ok ROps (g_sy G) (g_sx G) = true ->
+  @sim_data ROps pi_ G uv img = @dft_spec ROps img (@centres_spec ROps pi_ G) uv.
+Proof. exact T_sim. Qed.
+
 (* 7. histories: any number of TransformerDFT objects alive in one process (constructed in any order, with or without
    preloaded tables, over masks / baselines that differ in as little as one pixel), their three methods called in any order
    any number of times: what every step returns is the pure function of (the geometry and baselines the addressed object
@@ -168,6 +182,16 @@ Example ex_siblings_differ :
   = [[(0, -1 # 2)%Q]; [(0, 1 # 2)%Q]; [(0, 1)%Q]; [(0, -1)%Q]].
 Proof. vm_compute. reflexivity. Qed.
 
+(* an image whose values cancel exactly (a +1 / -1 dipole: sum = 0, l1 norm = 2) does NOT transform to zero: on the
+   executable model, two pixels one unit apart in x, baseline u = 1/2 (half a turn between the pixels) *)
+Example ex_dipole_is_not_empty :
+  @visibilities_jit QOpsT [1%Q; (-1)%Q] [(0, 0)%Q; (0, 1)%Q] [(0, 0)%Q; (1 # 2, 0)%Q] = [(0, 0)%Q; (2, 0)%Q]
+  /\ @dft_spec QOpsT [1%Q; (-1)%Q] [(0, 0)%Q; (0, 1)%Q] [(0, 0)%Q; (1 # 2, 0)%Q] = [(0, 0)%Q; (2, 0)%Q].
+Proof. split; vm_compute; reflexivity. Qed.
+(* two linear objects with 1 and 2 parameters: the reconstruction [5; 6; 7] is cut into [5] and [6; 7] *)
+Example ex_split_params : @split_params ROps [1%nat; 2%nat] [5; 6; 7] = [[5]; [6; 7]].
+Proof. reflexivity. Qed.
+
 Print Assumptions C13_visibilities_formula.
 Print Assumptions C13_dft_spec_is_the_formula.
 Print Assumptions C13_dft_is_operator.
@@ -189,3 +213,5 @@ Print Assumptions C13_transformer_image.
 Print Assumptions C13_transformer_mapping_matrix.
 Print Assumptions C13_inversion_D_and_F_are_gram_products.
 Print Assumptions C13_history_is_pure.
+Print Assumptions C13_reconstructed_visibilities_per_object.
+Print Assumptions C13_simulated_data_is_transform.
